@@ -1,8 +1,6 @@
 //! kharness: correspondence / oracle driver.  `kharness <Cxx> <quick|thorough> <seed> <out.json>`
 //! or `kharness replay <Cxx> <case.json-as-k=v-lines-file>`.
-mod alloc;
 mod cli;
-mod drops;
 #[allow(dead_code)]
 #[path = "/repo/src/cli/src/errors.rs"]
 mod errors;
@@ -20,7 +18,7 @@ mod util;
 use report::*;
 
 #[global_allocator]
-static GLOBAL: alloc::Counting = alloc::Counting;
+static GLOBAL: kalloc::alloc::Counting = kalloc::alloc::Counting;
 
 fn prop_by_id(id: &str) -> Option<Box<dyn Prop>> {
     match id {
